@@ -6,7 +6,9 @@
 // takes as parameters; the executor recomputes them and refuses lines whose facts are stale):
 //
 //	init <cgi> <HTTPProxy> <hpfact> <HTTPSProxy> <spfact> <NoProxy> <fact>*
-//	req <mode u|d> <raw1> <raw2> <scheme> <addrOk> <host> <port> <ip|n>
+//	req <mode u|d> <raw1> <raw2> <scheme> <host> <port> <ip|n>
+//
+// host/port are canonicalHostPort(url): the IDNA form of url.Hostname() and url.Port() or the scheme default.
 package main
 
 import (
@@ -144,20 +146,26 @@ func initLine(cgi bool, hp, sp, np string) string {
 
 type reqInfo struct {
 	scheme string
-	addrOk bool
 	host   string
 	port   string
 	ip     net.IP // nil if the host is not an IP literal
 }
 
+var defaultPort = map[string]string{"http": "80", "https": "443", "socks5": "1080"}
+
+// reqInfoOf computes what proxyForURL hands to the NO_PROXY evaluation (net/url and IDNA are not
+// modelled): host = IDNA form of url.Hostname(), port = url.Port() or the scheme default.
 func reqInfoOf(u *url.URL) reqInfo {
 	ri := reqInfo{scheme: u.Scheme}
-	addr := httpproxy.VerifCanonicalAddr(u)
-	h, p, err := net.SplitHostPort(addr)
-	if err != nil {
-		return ri
+	h := u.Hostname()
+	if v, err := httpproxy.VerifIdnaASCII(h); err == nil {
+		h = v
 	}
-	ri.addrOk, ri.host, ri.port = true, h, p
+	p := u.Port()
+	if p == "" {
+		p = defaultPort[u.Scheme]
+	}
+	ri.host, ri.port = h, p
 	if a, err := netip.ParseAddr(h); err == nil {
 		ri.ip = net.IP(a.AsSlice())
 	}
@@ -165,14 +173,11 @@ func reqInfoOf(u *url.URL) reqInfo {
 }
 
 func (ri reqInfo) facts() string {
-	ok, ip := "0", "n"
-	if ri.addrOk {
-		ok = "1"
-	}
+	ip := "n"
 	if ri.ip != nil {
 		ip = vu.Hex(ri.ip)
 	}
-	return fmt.Sprintf("%s %s %s %s %s", hx(ri.scheme), ok, hx(ri.host), hx(ri.port), ip)
+	return fmt.Sprintf("%s %s %s %s", hx(ri.scheme), hx(ri.host), hx(ri.port), ip)
 }
 
 func mkURL(mode, raw1, raw2 string) *url.URL {
@@ -192,7 +197,7 @@ func reqLine(mode, raw1, raw2 string) (string, bool) {
 		return "", false
 	}
 	ri := reqInfoOf(u)
-	if ri.addrOk && !stable(ri.host) {
+	if !stable(ri.host) {
 		return "", false
 	}
 	return fmt.Sprintf("req %s %s %s %s", mode, hx(raw1), hx(raw2), ri.facts()), true
@@ -566,7 +571,7 @@ func exec(ops []string, o *vu.Out) {
 			})
 			o.Op(op, res)
 		case "req":
-			if len(t) != 9 || !st.ok || (t[1] != "u" && t[1] != "d") {
+			if len(t) != 8 || !st.ok || (t[1] != "u" && t[1] != "d") {
 				o.Op(op, "bad-op")
 				continue
 			}
@@ -583,6 +588,9 @@ func exec(ops []string, o *vu.Out) {
 			}
 			u := mkURL(t[1], raw1, raw2)
 			ri := reqInfoOf(u)
+			if net.JoinHostPort(ri.host, ri.port) != httpproxy.VerifCanonicalAddr(u) {
+				o.Fail("", fmt.Sprintf("canonicalAddr(%q) = %q, expected host %q port %q", u.String(), httpproxy.VerifCanonicalAddr(u), ri.host, ri.port))
+			}
 			var got *url.URL
 			var gerr error
 			res := vu.Catch(func() string {
@@ -714,11 +722,11 @@ func oracle(o *vu.Out, st *state, u *url.URL, ri reqInfo, res string) {
 		want = "err cgi"
 		o.Stat("want:cgi-refusal")
 	default:
-		by, why := false, "unsplittable"
-		if ri.addrOk {
-			by, why = specBypass(st.cfg.NoProxy, ri.host, ri.port, ri.ip)
-		}
+		by, why := specBypass(st.cfg.NoProxy, ri.host, ri.port, ri.ip)
 		o.Stat("spec:" + why)
+		if _, _, err := net.SplitHostPort(net.JoinHostPort(ri.host, ri.port)); err != nil {
+			o.Stat("host:stray-bracket") // region of the repaired defect unsplittable-addr-bypass
+		}
 		if by {
 			want = "ok none"
 		} else {
@@ -728,12 +736,7 @@ func oracle(o *vu.Out, st *state, u *url.URL, ri reqInfo, res string) {
 	if res == want {
 		return
 	}
-	sig := ""
-	if !ri.addrOk && res == "ok none" {
-		// host such as "a]b": canonicalAddr cannot be split again, useProxy answers false
-		sig = "unsplittable-addr-bypass"
-	}
-	o.Fail(sig, fmt.Sprintf("NO_PROXY=%q HTTP_PROXY=%q HTTPS_PROXY=%q CGI=%v url{scheme=%q host=%q}: ProxyFunc gives %q, the documented rule gives %q",
+	o.Fail("", fmt.Sprintf("NO_PROXY=%q HTTP_PROXY=%q HTTPS_PROXY=%q CGI=%v url{scheme=%q host=%q}: ProxyFunc gives %q, the documented rule gives %q",
 		st.cfg.NoProxy, st.cfg.HTTPProxy, st.cfg.HTTPSProxy, st.cfg.CGI, u.Scheme, u.Host, res, want))
 }
 
